@@ -1,5 +1,5 @@
-(* READ handlers of placement/handlers/{resource_provider,inventory,usage,allocation,trait,aggregate}.py
-   and the object-layer queries behind them, as total functions of the database.
+(* READ handlers of placement/handlers/{resource_provider,inventory,usage,allocation,trait,aggregate,
+   resource_class}.py and the object-layer queries behind them, as total functions of the database.
 
    A view is (HTTP status, header scalars, rows).  Rows are the members of the JSON objects /
    lists of the body flattened to integers and sorted (JSON objects are unordered; the two JSON
@@ -8,8 +8,10 @@
    (surrogate ids resolved): the joins with projects / users / consumer_types / resource_classes /
    traits that only translate a surrogate id into its external name are therefore the identity
    here; every join with a table of Tables.v is written out.  Not modelled: key order, links,
-   Last-Modified / Cache-Control headers, error bodies. *)
+   Last-Modified / Cache-Control headers, error bodies, the `name=startswith:` filter of GET /traits
+   (names are opaque tokens here; text exists only in Regex.v). *)
 From PV Require Export Model.Handlers.
+From PV Require Import Model.Names.
 
 Record rview := mkView { rv_status : Z; rv_hdr : list Z; rv_rows : list (list Z) }.
 Definition v_404 : rview := mkView 404 [] [].
@@ -24,8 +26,13 @@ Inductive query :=
 | QRpTraits (u : Z)                             (* GET /resource_providers/{u}/traits *)
 | QRpAggs (u : Z)                               (* GET /resource_providers/{u}/aggregates *)
 | QConsAllocs (c : Z)                           (* GET /allocations/{c} *)
-| QUsages (p : Z) (user : option Z) (ct : option Z).
+| QUsages (p : Z) (user : option Z) (ct : option Z)
                                                 (* GET /usages?project_id=p[&user_id][&consumer_type] *)
+| QTraits (names : option (list Z)) (assoc : option bool)
+                                                (* GET /traits[?name=in:T1,T2,..][&associated=true|false] *)
+| QTrait (t : Z)                                (* GET /traits/{t} (trait NAME token) *)
+| QClasses                                      (* GET /resource_classes *)
+| QClass (n : Z).                               (* GET /resource_classes/{n} (class NAME token, not the id) *)
 (* consumer_type tokens in queries and payloads: CT_ALL = "all", CT_UNKNOWN = "unknown"
    (also the name reported for a consumer without a type), t >= 0 = a consumer type name *)
 Definition CT_ALL : Z := -2.
@@ -208,6 +215,59 @@ Definition v_usages (d : db) (v p : Z) (user : option Z) (ct : option Z) : rview
         else mkView 200 [] (group_rows true (usage_join d p user (fun ty => oeqb ty (Some t)) (fun _ => t)))
     end.
 
+(* ---------------------------------------------------------------- traits *)
+(* the rows of the `traits` table: the standard traits (os_traits, inserted by _trait_sync at start-up
+   and never deleted: tokens 0 .. n_std_traits - 1) and the custom rows *)
+Definition trait_rows (d : db) : list Z := zseq (Z.to_nat n_std_traits) 0 ++ traits d.
+
+(* traits JOIN resource_provider_traits ON traits.id = resource_provider_traits.trait_id: one row per
+   association record of the trait *)
+Definition trait_join (d : db) (l : list Z) : list Z :=
+  flat_map (fun t => flat_map (fun x => if snd x =? t then [t] else []) (rp_traits d)) l.
+
+(* trait.get_all(filters) -> _get_all_filtered_from_db (no filter: the per-request cache, loaded by
+   SELECT .. FROM traits):
+     query(Trait) [.filter(Trait.name.in_(names))]
+     associated=true :  .join(ResourceProviderTrait, ..).distinct()
+     associated=false:  .outerjoin(ResourceProviderTrait, ..).filter(ResourceProviderTrait.trait_id == NULL) *)
+Definition traits_listed (d : db) (names : option (list Z)) (assoc : option bool) : list Z :=
+  let cand := match names with
+              | Some ns => filter (fun t => memZ t ns) (trait_rows d)
+              | None => trait_rows d
+              end in
+  match assoc with
+  | None => cand
+  | Some true => dedup (trait_join d cand)
+  | Some false => filter (fun t => negb (existsb (fun x => snd x =? t) (rp_traits d))) cand
+  end.
+
+(* list_traits / _serialize_traits: {"traits": [names]} *)
+Definition v_traits (d : db) (v : Z) (names : option (list Z)) (assoc : option bool) : rview :=
+  if v <? 6 then v_404 else
+  mkView 200 [] (sort_rows (map (fun t => [t]) (traits_listed d names assoc))).
+
+(* get_trait: Trait.get_by_name -> trait_cache.all_from_string; 204 without a body *)
+Definition v_trait (d : db) (v t : Z) : rview :=
+  if v <? 6 then v_404 else
+  if memZ t (trait_rows d) then mkView 204 [] [] else v_404.
+
+(* ---------------------------------------------------------------- resource classes *)
+(* the rows (id, name) of the `resource_classes` table: standard class i has id i and name token i
+   (_resource_classes_sync), then the custom rows *)
+Definition rc_rows (d : db) : list (Z * Z) := map (fun i => (i, i)) (zseq (Z.to_nat n_std_rc) 0) ++ rcs d.
+
+(* list_resource_classes: resource_class.get_all -> rc_cache.get_all(): {"resource_classes": [{"name": ..}]} *)
+Definition v_classes (d : db) (v : Z) : rview :=
+  if v <? 2 then v_404 else mkView 200 [] (sort_rows (map (fun x => [snd x]) (rc_rows d))).
+
+(* get_resource_class: ResourceClass.get_by_name -> rc_cache.all_from_string; {"name": ..} *)
+Definition v_class (d : db) (v n : Z) : rview :=
+  if v <? 2 then v_404 else
+  match find (fun x => snd x =? n) (rc_rows d) with
+  | Some x => mkView 200 [snd x] []
+  | None => v_404
+  end.
+
 (* ---------------------------------------------------------------- dispatcher *)
 Definition view (q : query) (v : Z) (d : db) : rview :=
   match q with
@@ -220,12 +280,20 @@ Definition view (q : query) (v : Z) (d : db) : rview :=
   | QRpAggs u => v_rp_aggs d v u
   | QConsAllocs c => v_cons_allocs d v c
   | QUsages p user ct => v_usages d v p user ct
+  | QTraits names assoc => v_traits d v names assoc
+  | QTrait t => v_trait d v t
+  | QClasses => v_classes d v
+  | QClass n => v_class d v n
   end.
 
 (* ---------------------------------------------------------------- correspondence helper *)
 Definition view_eqb (a b : rview) : bool :=
   (rv_status a =? rv_status b) && rows_eqb (rv_hdr a) (rv_hdr b) &&
   list_eqb rows_eqb (rv_rows a) (rv_rows b).
+
+(* harness/reads.py prints long listings of name tokens as runs (lo, hi) of consecutive tokens *)
+Definition rng_rows (l : list (Z * Z)) : list (list Z) :=
+  flat_map (fun x => map (fun t => [t]) (zseq (Z.to_nat (snd x - fst x + 1)) (fst x))) l.
 
 (* expected reads after every request of a history: returns (step index, read index) of every
    disagreement *)
